@@ -74,7 +74,7 @@ func (s *c24) Name() string { return "traffic/single-request" }
 func (s *c24) Build(w *World) {
 	t := w.Tape
 	drawProfile(w)
-	s.dag = GenDAG(t, GenCfg{MaxBlocks: 3 + t.Draw(18), MaxDepth: 2 + t.Draw(4), BlockPad: []int{0, 0, 40}[t.Draw(3)], Share: []int{0, 100, 300}[t.Draw(3)], Empty: []int{0, 0, 80}[t.Draw(3)]})
+	s.dag = GenDAG(t, GenCfg{MaxBlocks: 3 + t.Draw(18), MaxDepth: 2 + t.Draw(4), BlockPad: []int{0, 0, 40}[t.Draw(3)], Share: []int{0, 100, 300}[t.Draw(3)], Empty: []int{0, 0, 80}[t.Draw(3)], Alias: []int{0, 0, 100}[t.Draw(3)]})
 	s.sel, s.selDesc = GenSelector(t, 8)
 	// requestor-heavy splits so that "already holds everything" and long local prefixes occur
 	s.split = Split{Rq: map[cid.Cid]bool{}, Rs: map[cid.Cid]bool{}}
